@@ -35,6 +35,7 @@ def main(tier):
     chk.run("R-NARROWLIT", CR.narrowlit, cx.cpp, skip=r"IsBcd|ConvertToBinary|^Read|UncheckedRead", floor=10)
     chk.run("R-LOOPCOVER", CR.loopcover, cx.cpp, methods=("ConvertToBcd",), floor=64)
     chk.run("R-CPPRANGE", CR.cpprange, cx.cpp, floor=2000)
+    chk.run("R-MIRROR", C.mirror, cx.cpp, floor=8)
     chk.run("R-PATHEND", RR.pathend, cx.repo, floor=2, modules=("compiler/front_end/write_inference.py",))
     chk.run("R-BYTEPATH", C.bytepath, cx.repo, floor=70, side="write")
     return chk.finish()
